@@ -166,6 +166,42 @@ def sig_blob(k, hash_type, variant, z_fn):
     return der + bytes([hash_type & 0xff])
 
 
+def ctx_value(case, field, kind):
+    base = case.get(field, 0)
+    if kind == "eq":
+        return base
+    if kind == "+1":
+        return base + 1
+    if kind == "-1":
+        return base - 1
+    if kind.startswith("bit"):
+        return base ^ (1 << int(kind[3:]))
+    if kind == "mask16":
+        return base & 0xffff
+    if kind == "era":
+        return base + 500000000 if base < 500000000 else base - 500000000
+    if kind == "neg":
+        return -base
+    if kind == "zero":
+        return 0
+    if kind == "big5":
+        return base | (1 << 32)
+    raise ValueError(kind)
+
+
+def resolve_ctx(tokens, case):
+    """replace ["ctxnum", field, kind, enc] tokens by concrete number pushes derived from the case's tx context"""
+    out = []
+    for t in tokens:
+        if t[0] == "ctxnum":
+            out.append(["n", ctx_value(case, t[1], t[2]), t[3]])
+        elif t[0] == "rep":
+            out.append(["rep", resolve_ctx(t[1], case), t[2]])
+        else:
+            out.append(t)
+    return out
+
+
 def render(tokens, z_fn=None, lock_tokens=None):
     out = bytearray()
     for t in tokens:
@@ -264,7 +300,7 @@ def assemble_spend(case, sighash_mode="btc"):
     shape = case["shape"]
     amount = case.get("amount", 0)
     n_in = case.get("n_in", 0)
-    lock_tokens = case["lock"]
+    lock_tokens = resolve_ctx(case["lock"], case)
     witness_shape = shape in ("p2wsh", "p2sh-p2wsh", "p2wpkh", "p2sh-p2wpkh")
     if shape in ("p2wpkh", "p2sh-p2wpkh"):
         kb = key_blob(case["lock"][0][1], case["lock"][0][2])
@@ -290,7 +326,7 @@ def assemble_spend(case, sighash_mode="btc"):
 
     if lock_script is None:
         lock_script = render(lock_tokens, z_fn)
-    unlock = case.get("unlock", [])
+    unlock = resolve_ctx(case.get("unlock", []), case)
     script_sig = b""
     witness = []
     if shape == "bare":
